@@ -104,6 +104,18 @@ fn char_substring_offset(
 ) -> Result<(usize, usize), Error> {
     let len = s.chars().count();
 
+    if let Some(start) = start {
+        if start > len {
+            return Err(InvalidStringIndex(start, len.saturating_sub(1)));
+        }
+    }
+
+    if let Some(end) = end {
+        if end > len {
+            return Err(InvalidStringIndex(end, len.saturating_sub(1)));
+        }
+    }
+
     if let (Some(start), Some(end)) = (start, end) {
         if start == end {
             return Ok((0, 0));
